@@ -67,10 +67,21 @@ func c15Job(raw json.RawMessage) (any, error) {
 	if got, want := strings.Join(vs[:len(vs)+1], " | "), strings.Join(append(append([]string{}, it.Versions...), "caller-owned-tail"), " | "); got != want && it.Only == "" {
 		out.Viols = append(out.Viols, explore.Violation{Property: "C15", Clause: "C15.config", Class: "caller-slice-modified", Config: cfg, Probe: "constructor", Observed: "the version list handed over now reads: " + got, Expected: "as handed over: " + want, Replay: explore.ItemReplay("c15/config", it)})
 	}
+	// another matcher, configured differently, sees every Accept value first: what it concluded is its own business
+	decoy := mux.NewHeaderVersion("", "api", func(error) {}, "9", "1")
 	try := func(path, accept string, hasAccept bool) {
 		q := hv.Req{Method: "GET", Path: path, Host: "h"}
 		if hasAccept {
-			q.Header = map[string]string{"Accept": accept, "X-Other": "1"}
+			// "\n" inside the value: the header arrives on two field lines
+			lines := strings.Split(accept, "\n")
+			q.Header = map[string]string{"Accept": lines[0], "X-Other": "1"}
+			if len(lines) > 1 {
+				q.Multi = map[string][]string{"Accept": lines[1:]}
+			}
+			dctx := types.NewContext()
+			decoy.Match(hv.NewRequest(q, &hv.Obs{}), dctx)
+			dctx.Destroy()
+			accept = strings.Join(lines, ",") // several field lines are one comma-separated list
 		}
 		if strings.HasPrefix(path, "/") && len(path) < 100 {
 			q.RawPath = path[:len(path)-1] + fmt.Sprintf("%%%02X", path[len(path)-1]) // the target arrived with its last byte percent-encoded
@@ -165,7 +176,7 @@ func c15Job(raw json.RawMessage) (any, error) {
 				}
 			}
 		}
-		for _, g := range []string{"application/json;version=1, text/plain", "application/json;version=1,text/plain;version=2", "text/plain, application/json;version=1", `application/json;version="1,0"`, "application/json;version=1,0", ";;", "a/b;=", "\xff", "a/b;version=1;version=1", "a/b ; version = 1", strings.Repeat("a", 70000)} {
+		for _, g := range []string{"application/json;version=1\ntext/plain", "text/plain\napplication/json;version=1", "application/json;version=2\napplication/json;version=1", "a/b\na/b;version=1", "application/json;version=1, text/plain", "application/json;version=1,text/plain;version=2", "text/plain, application/json;version=1", `application/json;version="1,0"`, "application/json;version=1,0", ";;", "a/b;=", "\xff", "a/b;version=1;version=1", "a/b ; version = 1", strings.Repeat("a", 70000)} {
 			try("/x", g, true)
 		}
 	}
